@@ -451,13 +451,32 @@ def rw_format(body, cnt):
         body = body[:m.start()] + 'opaque_text()' + body[c + 1:]
         cnt.hit('D5')
 
+def rw_into_iter_map_collect(body, cnt):
+    """R19b: let X: Vec<T> = V.into_iter().map(|PAT| E).collect();  ==> consuming push loop, front to back"""
+    while True:
+        msk = mask(body)
+        m = re.search(r'let\s+(\w+)\s*:\s*Vec<(\w+)>\s*=\s*(\w+)\s*\.\s*into_iter\(\)\s*\.\s*map\s*\(', msk)
+        if not m: return body
+        o = m.end() - 1
+        c = match_close(msk, o)
+        inner = body[o + 1:c]
+        cm = re.match(r'\s*\|(.*?)\|\s*(.*)$', inner, re.S)
+        tm = re.match(r'\s*\.\s*collect\(\)\s*;', msk[c + 1:])
+        if not cm or not tm: raise ExtractError('R19b: unsupported into_iter/map/collect shape')
+        pat, e = cm.group(1).strip(), cm.group(2).strip()
+        k = _fresh()
+        repl = ('let mut %s: Vec<%s> = Vec::new(); let mut %s = %s; while %s.len() > 0 { let %s = %s.remove(0); %s.push(%s); }'
+                % (m.group(1), m.group(2), k, m.group(3), k, pat, k, m.group(1), e))
+        body = body[:m.start()] + repl + body[c + 1 + tm.end():]
+        cnt.hit('R19b')
+
 def rw_paths(body, cnt):
     """D3: the unit is one module; drop `cosmwasm_std::` path qualifiers"""
     body, n = re.subn(r'\bcosmwasm_std::', '', body)
     if n: cnt.hit('D3', n)
     return body
 
-GENERIC = [rw_paths, rw_format, rw_map_collect, rw_find, rw_update_closure, rw_sum, rw_for_loops, rw_opassign, rw_opassign_arm, rw_closure_underscore]
+GENERIC = [rw_paths, rw_format, rw_into_iter_map_collect, rw_map_collect, rw_find, rw_update_closure, rw_sum, rw_for_loops, rw_opassign, rw_opassign_arm, rw_closure_underscore]
 
 # --------------------------------------------------------------------------------------
 
@@ -723,14 +742,19 @@ class Unit:
                 start = pos + 1
             if h['after']:
                 # end of the statement containing the anchor: next ';' at depth 0 relative to anchor
-                j = pos; depth = 0
+                j = pos; depth = 0; tail = False
                 while j < len(bm):
                     ch = bm[j]
                     if ch in '([{': depth += 1
                     elif ch in ')]}':
+                        if depth == 0:
+                            tail = True; break      # statement is the tail expression of its block (no `;`)
                         depth -= 1
                     elif ch == ';' and depth <= 0: break
                     j += 1
+                if tail:
+                    inserts.append((j, 'hint', [';'] + h['text']))
+                    continue
                 off = j + 1
             else:
                 # exactly before the anchor text (anchors are chosen at statement starts)
